@@ -453,6 +453,10 @@ def run(ctx: Ctx):
     index_dicts(ctx, "R04.a2")
     unpack_pairs(ctx, "R04.a2")
     check_accessors_are_sets(ctx, "R04.a2")
+    # the number of values each generated function declares to return is the extent of the array it fills
+    from .c03 import return_arity
+
+    return_arity(ctx, "R04.d")
     ctx.rule("R04.b", "index templates: python dict lookup (KeyError), C strcmp chain (-1); every *_index passes its own family name; init templates use their own index function and keep names/values aligned", floor=30)
     index_templates(ctx, "R04.b")
     from .c03 import jax_template
